@@ -52,7 +52,8 @@ from vf.core import Ctx, canon, digest, use_repo
 from vf.pool import pmap
 
 LEVEL = "exploration"
-# None as a solution value (Ring rep "none0") is switched on by VERIF_C19_NONE_STATES=1: see triage/C19_round3.md
+# None as a solution value (Ring rep "none0") is outside the domain (None is the library's no-solution marker, see ctx.assumptions);
+# off unless VERIF_C19_NONE_STATES=1 (documentation run for triage/C19_round3.md)
 NONE_STATES = os.environ.get("VERIF_C19_NONE_STATES") == "1"
 PRESENT_DESC = dict(
     transformers="solutions: persistent objects owned by the callbacks / fresh lists / \"\" frozenset() 0.0 False as state 0 / strings / "
@@ -1173,8 +1174,11 @@ def run(ctx: Ctx):
         "bounds clause only for the first group (differential_evolution, particle_swarm, bayesian_opt), as the statement says",
         "presentation family: a tuple is accepted wherever the signature says Sequence; a neighbourhood callback may hand back any iterable "
         "of (move, solution) pairs and may hand back the same persistent object on every call; data reachable only through a callback (its "
-        "table, its cached solution objects) belongs to the caller: the solver may read it, not change it; None as a solution value only "
-        "with VERIF_C19_NONE_STATES=1 (triage/C19_round3.md)",
+        "table, its cached solution objects) belongs to the caller: the solver may read it, not change it",
+        "solution / state values are never None: None is the library's no-solution marker (Result.solution is None for INFEASIBLE / no "
+        "result; tabu_search's 'no admissible neighbour' sentinel follows the same convention), so None as a solution VALUE is outside the "
+        "domain of every solver of this property; the presentation exists (Ring representation none0) but stays off unless "
+        "VERIF_C19_NONE_STATES=1 is set - documentation of what it shows: triage/C19_round3.md",
     ]
     ctx.trusted += ["oracles/search_books.py (recording proxy, table/grid/separable objectives and their generators, min over the "
                     "trace, float ==, <=, unary -)",
